@@ -99,6 +99,14 @@ impl Scenario for AppAddrScenario {
                     seq: ConfSel::Expected,
                     from: Who::Master,
                 }),
+                3 => {
+                    // the confirmation that is awaited - but from another master
+                    script.push(Op::Confirm {
+                        uns: rng.bool(),
+                        seq: ConfSel::Expected,
+                        from: Who::Foreign(*rng.pick(&[2u16, 7, 1023, 65519])),
+                    });
+                }
                 _ => {}
             }
             let from = if rng.chance(2, 3) {
@@ -234,6 +242,7 @@ pub struct AddrOracle {
     own: u16,
     any_master: bool,
     self_address: bool,
+    broadcast: bool,
     sol_wait: bool,
     unsol_wait: bool,
     nontrivial: bool,
@@ -248,6 +257,7 @@ impl AddrOracle {
             own: case.cfg.outstation_addr,
             any_master: case.cfg.any_master,
             self_address: case.cfg.self_address,
+            broadcast: case.cfg.broadcast,
             sol_wait: false,
             unsol_wait: false,
             nontrivial: false,
@@ -375,6 +385,15 @@ impl Oracle for AddrOracle {
                             step.op_index, step.link_frames
                         ),
                     ));
+                } else if !self.broadcast && !mutating.is_empty() {
+                    violation = Some(Violation::new(
+                        "C07/app broadcast-executed-although-disabled",
+                        "",
+                        format!(
+                            "step {}: broadcast support is switched off, yet the broadcast from {} caused {:?}",
+                            step.op_index, s.src, mutating
+                        ),
+                    ));
                 } else if foreign && !self.any_master && !mutating.is_empty() {
                     violation = Some(Violation::new(
                         "C07/app foreign-master-executed",
@@ -405,6 +424,22 @@ impl Oracle for AddrOracle {
                                 r.dest
                             ),
                         ));
+                    } else if let Some(effect) = step.callbacks.iter().map(|c| &c.1).find(|cb| {
+                        // a confirmation from another master confirms nothing: no release, no end of a confirm wait
+                        matches!(cb, Cb::EventCleared(_) | Cb::BeginConfirm | Cb::EndConfirm { .. })
+                            || matches!(cb, Cb::Info(i) if i.starts_with("solicited_confirm_received") || i.starts_with("unsolicited_confirmed"))
+                    }) {
+                        violation = Some(Violation::new(
+                            "C07/app foreign-master-executed",
+                            "confirm",
+                            format!(
+                                "step {}: fragment {} from foreign master {} was taken as a confirmation ({:?})",
+                                step.op_index,
+                                crate::verif::io::hex(&s.bytes[..s.bytes.len().min(8)]),
+                                s.src,
+                                effect
+                            ),
+                        ));
                     } else if !mutating.is_empty() {
                         violation = Some(Violation::new(
                             "C07/app foreign-master-executed",
@@ -416,9 +451,11 @@ impl Oracle for AddrOracle {
                         ));
                     }
                 } else {
-                    // any-master: the reply goes to the sender
+                    // any-master: the reply goes to the sender (a CONFIRM is not a request: what follows it is not its reply)
+                    let is_confirm = s.bytes.len() >= 2 && s.bytes[1] == refapp::FUNC_CONFIRM;
                     for r in &sol {
-                        if r.bytes[0] & 0x0F == s.bytes.first().copied().unwrap_or(0) & 0x0F
+                        if !is_confirm
+                            && r.bytes[0] & 0x0F == s.bytes.first().copied().unwrap_or(0) & 0x0F
                             && r.bytes[0] & 0x80 != 0
                             && r.dest != s.src
                         {
